@@ -1,5 +1,6 @@
 """C03 (partial) — the speed the controller aims for is never above the limit in force; limit lookup is exact."""
 from common import *  # noqa
+from trainparts import g, GQ  # noqa
 
 
 def bp_tmpl(n, idx_curr):
@@ -7,8 +8,9 @@ def bp_tmpl(n, idx_curr):
 
 
 def bp_domain(S, n, idx_curr):
-    """the shape BrakingPoints::recalc establishes: offsets strictly decreasing from the end of the path (index 0) towards its beginning,
-    target <= limit pointwise, non-negative speeds; the cached index is not ahead of the train"""
+    """braking-point lists with offsets strictly decreasing from the end of the path (index 0) towards its beginning (what recalc builds
+    as long as no exit point overshoots a section start and the curve stays on the path; the other lists are covered by the composed
+    recalc + lookup harness below), target <= limit pointwise, non-negative speeds; the cached index is not ahead of the train"""
     d = []
     for i in range(n - 1):
         d.append((f"o{i} > o{i+1} (offsets decrease with the index)", S[f"o{i}"] > S[f"o{i+1}"]))
@@ -64,8 +66,176 @@ def calc_speeds_case(n, idx_curr):
     return c
 
 
+# ---------------------------------------------------------------- BrakingPoints::recalc: the curve the lookup above runs on
+SC.add_wrapper("W_Recalc", [("bp", "BrakingPoints"), ("state", "TrainState"), ("fric_brake", "FricBrake"), ("train_res", "TrainRes"), ("path_tpc", "PathTpc")])
+
+MASS = 1000  # kg, concrete: keeps the deceleration per step (force / mass) linear in the symbolic brake force
+DT = 1       # s, concrete for the same reason
+
+
+def recalc_case(nsp, grade=None, kmax=2, lookup=False):
+    """recalc on a one-link path with nsp posted speed sections, then a lookup at a symbolic position.
+    kmax bounds the length of each braking curve: every posted limit is at most kmax velocity steps (the loop bound of this harness)."""
+    import traincommon as tc
+    st = tc.train_state_tmpl(1)
+    st["dt"] = DT
+    st["mass_static"] = MASS
+    st["mass_rot"] = 0
+    if grade:
+        st["length"] = 100  # m, concrete: the grade force divides by the train length
+    L = Sym("L")
+    # grade profile: level, or two grades g0 / g1 with a break at gb (elevation is the running integral, as PathTpc::extend builds it)
+    from fractions import Fraction as _F
+    G0, G1 = (_F(str(grade[0])), _F(str(grade[1]))) if grade else (0, 0)  # concrete grades keep elevation linear in the symbolic positions
+    gr = [{"offset": 0, "res_coeff": float(G0), "res_net": 0}, {"offset": Sym("gb"), "res_coeff": float(G1), "res_net": Sym("e1")}, {"offset": L, "res_coeff": 0, "res_net": Sym("e2")}] if grade else \
+        [{"offset": 0, "res_coeff": 0, "res_net": 0}, {"offset": L, "res_coeff": 0, "res_net": 0}]
+    flat = [{"offset": 0, "res_coeff": 0, "res_net": 0}, {"offset": L, "res_coeff": 0, "res_net": 0}]
+    tpc = {"link_points": [{"offset": 0, "grade_count": 0, "curve_count": 0, "cat_power_count": 0, "link_idx": 1}, {"offset": L, "grade_count": 0, "curve_count": 0, "cat_power_count": 0, "link_idx": 0}],
+           "grades": gr, "curves": flat, "speed_points": [{"offset": (0 if j == 0 else Sym(f"so{j}")), "speed_limit": Sym(f"sl{j}")} for j in range(nsp)], "cat_power_limits": [],
+           "train_params": {"length": 100 if grade else Sym("ts_length"), "speed_max": 30, "towed_mass_static": 1000, "mass_per_brake": 100, "axle_count": 4, "train_type": "Freight",
+                            "curve_coeff_0": 0, "curve_coeff_1": 0, "curve_coeff_2": 0},
+           "is_finished": False}
+    res = Variant("Strap", {"bearing": {"force": Sym("bearing")}, "rolling": {"ratio": 0}, "davis_b": {"davis_b": 0}, "aerodynamic": {"cd_area": 0},
+                            "grade": {"idx_front": 0, "idx_back": 0}, "curve": {"idx_front": 0, "idx_back": 0}})
+    recv = {"bp": {"points": [], "idx_curr": 0}, "state": st, "fric_brake": tc.fric_brake_tmpl(), "train_res": res, "path_tpc": tpc}
+
+    def so(S, j):
+        return 0 if j == 0 else S[f"so{j}"]
+
+    def tlen(S):
+        return 100 if grade else S["ts_length"]
+
+    def assume(S):
+        a = (S["fb_force_max"] + S["bearing"] + (0.03 * MASS * GQ if grade else 0)) / MASS * DT  # largest velocity step (level track; steepest upgrade)
+        d = [("brake force > 0, bearing resistance >= 0", z3.And(S["fb_force_max"] > 0, S["bearing"] >= 0)), ("train length > 0", tlen(S) > 0),
+             ("path longer than the train", S["L"] > tlen(S))]
+        prev = 0
+        for j in range(1, nsp):
+            d.append((f"posted section offsets strictly increasing inside the path: so{j}", z3.And(S[f"so{j}"] > prev, S[f"so{j}"] < S["L"])))
+            prev = S[f"so{j}"]
+        for j in range(nsp):
+            d.append((f"0 < sl{j} <= {kmax} velocity steps (bounds the curve length)", z3.And(S[f"sl{j}"] > 0, S[f"sl{j}"] <= kmax * a)))
+        for j in range(nsp - 1):
+            d.append((f"canonical profile: adjacent posted limits differ: sl{j} != sl{j+1}", S[f"sl{j}"] != S[f"sl{j+1}"]))
+        if grade:
+            d += [("grade break inside the path", z3.And(S["gb"] > 0, S["gb"] < S["L"])),
+                  ("elevation is the running integral of the grade", z3.And(S["e1"] == z3.RealVal(_F(float(G0))) * S["gb"], S["e2"] == S["e1"] + z3.RealVal(_F(float(G1))) * (S["L"] - S["gb"]))),
+                  ("the brake alone holds the train on the steepest grade with margin: force_max >= 2 * 3 % of the weight", S["fb_force_max"] >= 2 * 0.03 * MASS * GQ)]
+        return d
+
+    def pts(c):
+        P = c.post["bp.points"]
+        n = P.len()
+        return [(P[f"{i}.offset"], P[f"{i}.speed_limit"], P[f"{i}.speed_target"]) for i in range(n)]
+
+    def first_point(c):
+        P = pts(c)
+        return AND(EQ(P[0][0], c.S["L"]), EQ(P[0][1], 0), EQ(P[0][2], 0))
+
+    def last_point(c):
+        P = pts(c)
+        return AND(EQ(P[-1][0], 0), EQ(P[-1][1], c.S["sl0"]), EQ(P[-1][2], c.S["sl0"]), EQ(c.post["bp.idx_curr"], len(P) - 1))
+
+    def target_le_limit(c):
+        return AND(*[AND(XLE(0, t), LE(t, l)) for (_, l, t) in pts(c)])
+
+    def offsets_decrease(c):
+        """offsets never increase with the index for as long as the curve stays on the path; once a curve point lies at or before the
+        start of the path (the path is too short to brake from the posted speed) the remaining posted sections are appended after it"""
+        P = pts(c)
+        conds = []
+        for i in range(len(P) - 1):
+            conds.append(OR(XLE(P[i + 1][0], P[i][0]), *[XLE(P[k][0], 0) for k in range(i + 1)]))
+        return AND(*conds) if conds else True
+
+    def offsets_strict(c):
+        P = pts(c)
+        return AND(*[XLT(P[i + 1][0], P[i][0]) for i in range(len(P) - 1)]) if len(P) > 1 else True
+
+    def below_posted(c):
+        """every braking point's limit is <= the posted limit wherever that point is the one in force:
+        point i (i >= 1) is in force on [o_i, o_{i-1}); posted section j covers [so_j, so_{j+1})"""
+        P = pts(c)
+        S = c.S
+        conds = []
+        for i in range(1, len(P)):
+            for j in range(nsp):
+                hi_j = S[f"so{j+1}"] if j + 1 < nsp else None
+                overlap = [XLT(P[i][0], P[i - 1][0]), XLT(so(S, j), P[i - 1][0])]
+                if hi_j is not None:
+                    overlap.append(XLT(P[i][0], hi_j))
+                conds.append(IMP(AND(*overlap), LE(P[i][1], S[f"sl{j}"])))
+        return AND(*conds) if conds else True
+
+    def elev(S, x):
+        from values import is_z3 as _isz
+        q0, q1 = (z3.RealVal(_F(float(G0))), z3.RealVal(_F(float(G1)))) if any(_isz(v) for v in S.values()) else (float(G0), float(G1))
+        return IF(XLE(S["gb"], x), S["e1"] + q1 * (x - S["gb"]), q0 * x)
+
+    def physics(c):
+        """going backwards, the curve never gains more speed per step than the brake plus the true resistance at that point give:
+        l[i+1] <= l[i] + dt * (force_max + bearing + weight * (elev(front) - elev(rear)) / length) / mass"""
+        P = pts(c)
+        S = c.S
+        conds = []
+        for i in range(len(P) - 1):
+            o, l = P[i][0], P[i][1]
+            grade_force = (MASS * g(S["L"]) * (elev(S, o) - elev(S, o - tlen(S)))) if grade else 0
+            # (once a curve point lies at or before the start of the path the curve is abandoned and the remaining posted sections are appended)
+            conds.append(IMP(AND(XLT(l, P[i + 1][1]), *[XLT(0, P[k][0]) for k in range(i + 2)]),
+                             LE((P[i + 1][1] - l) * MASS * tlen(S), DT * ((S["fb_force_max"] + S["bearing"]) * tlen(S) + grade_force))))
+        return AND(*conds) if conds else True
+
+    claims = [
+        Claim("the curve gains speed (backwards) no faster than brake + true resistance allow", physics, when="ok", role="recalc_physics"),
+        Claim("curve starts with a stop at the end of the path", first_point, when="ok", role="recalc_first_point"),
+        Claim("curve ends with the first posted section at the start of the path; cursor on the last point", last_point, when="ok", role="recalc_last_point"),
+        Claim("0 <= target <= limit at every braking point", target_le_limit, when="ok", role="recalc_target_le_limit"),
+        Claim("limit in force from the braking curve is never above the posted limit at that position", below_posted, when="ok", role="recalc_below_posted"),
+        Claim("no_panic", None, when="nopanic", role="recalc_no_panic"),
+    ]
+    def posted(c):
+        """posted limit at position x: the section with the largest start <= x"""
+        S = c.S
+        val = S["sl0"]
+        for j in range(1, nsp):
+            val = IF(XLE(S[f"so{j}"], S["x"]), S[f"sl{j}"], val)
+        return val
+
+    def ret(c, k):
+        r = c.retval()
+        return r.fields[k] if hasattr(r, "fields") else r[k]
+
+    if lookup:
+        claims = [
+            Claim("limit in force returned by the lookup is never above the posted limit at the train's position", lambda c: LE(ret(c, 0), posted(c)), when="ok", role="lookup_below_posted"),
+            Claim("the speed the controller aims for is never above the limit in force", lambda c: AND(XLE(0, ret(c, 1)), LE(ret(c, 1), ret(c, 0))), when="ok", role="lookup_target_le_limit"),
+            Claim("no_panic", None, when="nopanic", role="lookup_no_panic"),
+        ]
+        return Case(f"recalc_lookup_sp{nsp}_{('grade%+g%+g' % tuple(grade)).replace('.', 'p') if grade else 'flat'}_k{kmax}", "C03", "W_Recalc", recv,
+                    [Call("BrakingPoints::recalc", [("@state", None), ("@fric_brake", None), ("@train_res", None), ("@path_tpc", None)], recv_path="bp"),
+                     Call("BrakingPoints::calc_speeds", [("si::Length", Sym("x1")), ("si::Velocity", 0), ("si::Time", Sym("ramp"))], recv_path="bp"),
+                     Call("BrakingPoints::calc_speeds", [("si::Length", Sym("x")), ("si::Velocity", 0), ("si::Time", Sym("ramp"))], recv_path="bp")],
+                    lambda S: assume(S) + [("train front on the path, an earlier lookup behind the current one: length <= x1 <= x <= L", z3.And(S["x1"] >= tlen(S), S["x1"] <= S["x"], S["x"] <= S["L"])),
+                                           ("brake look-ahead time >= 0", S["ramp"] >= 0)], claims,
+                    bounds={"posted speed sections": nsp, "links": 1, "curve length": f"each posted limit <= {kmax} velocity steps", "dt": f"{DT} s (concrete)", "train mass": f"{MASS} kg (concrete)",
+                            "grade": f"grades {grade[0]} / {grade[1]} with a break at a symbolic position" if grade else "level", "speed-dependent resistance": "none (Davis B, aero = 0)", "lookup": "two successive lookups at symbolic positions x1 <= x (cached cursor carried over), train at rest"},
+                    expect_ok=True, max_paths=60000, loop_bound=14, timeout_ms=30000, check_side=False)
+    return Case(f"recalc_sp{nsp}_{('grade%+g%+g' % tuple(grade)).replace('.', 'p') if grade else 'flat'}_k{kmax}", "C03", "W_Recalc", recv,
+                [Call("BrakingPoints::recalc", [("@state", None), ("@fric_brake", None), ("@train_res", None), ("@path_tpc", None)], recv_path="bp")], assume, claims,
+                bounds={"posted speed sections": nsp, "links": 1, "curve length": f"each posted limit <= {kmax} velocity steps", "dt": f"{DT} s (concrete)", "train mass": f"{MASS} kg (concrete)",
+                        "grade": f"grades {grade[0]} / {grade[1]} with a break at a symbolic position" if grade else "level", "speed-dependent resistance": "none (Davis B, aero = 0)"},
+                expect_ok=True, max_paths=20000, loop_bound=12, timeout_ms=30000, check_side=False)
+
+
 def m_cases(tier):
     cs = []
+    cs.append(recalc_case(1))
+    cs.append(recalc_case(2))
+    cs.append(recalc_case(2, lookup=True))
+    cs.append(recalc_case(1, grade=(-0.02, 0.0)))
+    if tier == "thorough":
+        cs += [recalc_case(3), recalc_case(2, kmax=3), recalc_case(2, grade=(0.0, -0.02)), recalc_case(1, grade=(0.015, -0.015)), recalc_case(1, grade=(-0.02, 0.01), kmax=3)]
     for n in ((2, 3, 4) if tier == "quick" else (1, 2, 3, 4, 5)):
         for idx in range(n):
             cs.append(calc_speeds_case(n, idx))
